@@ -5,6 +5,7 @@ import Hdl21Model.Drv.C10
 import Hdl21Model.Drv.C09
 import Hdl21Model.Drv.C13
 import Hdl21Model.Drv.Sem
+import Hdl21Model.Drv.C04
 open Lean
 
 /-- Line protocol: one JSON object per input line `{"prop": "C03", "op": ..., ...}`,
@@ -20,6 +21,7 @@ def dispatch (j : Json) : Except String Json := do
   | "C10" => Hdl21.Drv.C10.handle op j
   | "C09" => Hdl21.Drv.C09.handle op j
   | "C13" => Hdl21.Drv.C13.handle op j
+  | "C04" => Hdl21.Drv.C04.handle op j
   | "SEM" => Hdl21.Drv.Sem.handle op j
   | _ => .error s!"unknown prop {prop}"
 
